@@ -9,6 +9,13 @@ LEVEL_NOTE = ("Trusted base: clang 14 front end and CFG builder, the gsa-extract
               "Assumes the shipped configuration (GALOIS_USE_LONGJMP_ABORT, NDEBUG).")
 
 CHECKS = {
+    "C10": ("exhaustive evaluation, on every CFG path of every morph-graph flavour x mutator instantiation of the driver matrix "
+            "(three implementations), of: acquire of the same node dominates every touch of its edge vector / active flag, with "
+            "the caller's flag; all acquisitions precede the first mutation; both endpoint entries inserted with the same "
+            "mkEdge cell and the right in/out tags, removeEdge erases both; findEdge* re-validate the optimistic predicate "
+            "after acquiring the neighbour; default flags WRITE (UNPROTECTED only for getEdgeData); node life cycle; the three "
+            "implementations agree per method and flavour. Serialisability itself and sortedness values are not decided.",
+            "CFG dominance / ordering / sibling-agreement rules over clang AST facts", "4 C10"),
     "C09": ("exhaustive evaluation, on every CFG path of the heap/allocator/storage instantiations found, of: align-up idiom, "
             "pointer computed before the bump, bump and capacity test with the same aligned value, refill skips the header "
             "and links before publishing, no use of a block pointer found null without a refill, partial allocation clamps "
